@@ -696,6 +696,56 @@ func netlinkClientOwnership(c *core.Ctx, rule string) {
 			if pt, ok := cl.Type().(*types.Pointer); !ok || !strings.HasSuffix(pt.Elem().String(), "go-gtp5gnl.Client") {
 				return
 			}
+			// the selection may live in an own helper (c := g.queryClient(ps)): judge the helper's phi with
+			// its own flag parameter, and require that the caller hands its own ps parameter on
+			if hc, isCall := cl.(*ssa.Call); isCall && !hc.Call.IsInvoke() {
+				if h := core.StaticFn(hc); h != nil && h.Blocks != nil && p.IsOwnFn(h) && len(fieldLoads(h, psF)) > 0 {
+					n++
+					k++
+					good := false
+					core.Instrs(h, func(hin ssa.Instruction) {
+						r, isR := hin.(*ssa.Return)
+						if !isR || len(r.Results) != 1 {
+							return
+						}
+						ph, isPhi := r.Results[0].(*ssa.Phi)
+						if !isPhi || len(ph.Edges) != 2 {
+							return
+						}
+						var sawClient, sawPs bool
+						var flagPar *ssa.Parameter
+						for i, e := range ph.Edges {
+							_, f2, ok := core.LoadedField(e)
+							if !ok {
+								continue
+							}
+							pred := ph.Block().Preds[i]
+							switch f2 {
+							case psF:
+								for _, par := range h.Params {
+									if edgeKnown(pred, ph.Block(), par, true) {
+										sawPs, flagPar = true, par
+									}
+								}
+							case clientF:
+								sawClient = true
+							}
+						}
+						if sawClient && sawPs && flagPar != nil {
+							for i, par := range h.Params {
+								if par == flagPar && i < len(hc.Call.Args) {
+									if ap, isPar := hc.Call.Args[i].(*ssa.Parameter); isPar && ap.Parent() == fn {
+										good = true
+									}
+								}
+							}
+						}
+					})
+					c.Check(rule, fmt.Sprintf("client-selected-by-flag:%s#%d", core.FnName(fn), k), ci.Pos(), good,
+						"the netlink request uses the connection selected by the ps flag through "+core.FnName(h)+" (periodic queries never run on the event loop's connection)")
+					return
+				}
+			}
 			if !usesPs {
 				// single-goroutine function: must use the event loop's client
 				if _, f2, ok := core.LoadedField(cl); ok && f2 == psF {
